@@ -5,6 +5,7 @@ import ThriftVerif.Lib.Determinism
      R <content> <np> (<point name> <patch text>)*   → hex of the file content BuildResponse produces
      D <path> <ni> (<k> <v>)* <nn> (<k> <v>)*         → hex of meta.Marshal(FileDescriptor); the entries come in any order (the model sorts, as the code does)
      V <n> (<k> <v>)*                                 → hex of meta.Marshal(ConstValueDescriptor{MAP}) with string keys/values; keys may repeat
+     T <go type name>*                                → ServiceThrows: the names in the order the template function returns them
      N <style> <n> (<name> <id>)*                     → name2id (sorted) and Get(id) per entry after Add in the given order
 -/
 namespace Driver.C07
@@ -51,6 +52,10 @@ def handleLine (line : String) : String :=
       match takePairs k rest with
       | some (es, []) => VL.hexEncode (encCVMap es)
       | _ => "bad-op"
+    | none => "bad-op"
+  | "T" :: rest =>
+    match rest.mapM VL.hexDecode with
+    | some names => " ".intercalate ("ok" :: (sortedBy bytesLe names).map VL.hexEncode)
     | none => "bad-op"
   | "N" :: style :: n :: rest =>
     match n.toNat? with
